@@ -20,8 +20,9 @@ type Ctx struct {
 	ln   int
 	// Check square brackets flag.
 	chQB bool
-	// Check json quote/escape/encode flags.
-	chJQ, chHE, chUE, noesc bool
+	// Stack of the open bound tags (jsonquote/htmlescape/urlencode), the innermost last.
+	bnd   []rtype
+	noesc bool
 	// Internal buffers.
 	buf   []byte
 	bufS  []string
@@ -324,7 +325,8 @@ func (ctx *Ctx) Reset() {
 	ctx.Err = nil
 	ctx.bufX = nil
 	ctx.BufX = nil
-	ctx.chQB, ctx.chJQ, ctx.chHE, ctx.chUE = false, false, false, false
+	ctx.chQB = false
+	ctx.bnd = ctx.bnd[:0]
 	ctx.bufS = ctx.bufS[:0]
 	ctx.bufCB.Reset()
 	ctx.BufAcc.Reset()
